@@ -113,10 +113,11 @@ Definition time_offset (t : time) : Z :=
 Definition time_geb (a b : time) : bool := time_offset a >=? time_offset b.
 Definition time_eqb (a b : time) : bool := time_offset a =? time_offset b.
 
-(* Time.Plus(d), d given in minutes. The addition goes through safemath. *)
+(* Time.Plus(d), d given in minutes. The addition goes through safemath; since fix K6 an overflow is the
+   ordinary error IMPOSSIBLE_OPERATION, not a panic. *)
 Definition time_plus (t : time) (d : Z) : outcome time :=
   match add64 (time_offset t) d with
-  | None => Crash CIntegerOverflow
+  | None => Err EImpossibleOperation
   | Some mins =>
     if (2 * 1440 <=? mins) || (mins <? -1440) then Err EImpossibleOperation
     else
